@@ -239,3 +239,67 @@ func specFindInByte(b byte, want bool, testBit, stopBit uint8) int {
 	}
 	return -1
 }
+
+// specRangeStart is the first index LRANGE start..stop reads in a list of n
+// elements (Redis: negative counts from the tail, then clamps to the head).
+func specRangeStart(start, n int) int {
+	if start < 0 {
+		start = n + start
+		if start < 0 {
+			start = 0
+		}
+	}
+	return start
+}
+
+// specRangeStop is the last index of the window before clamping to the tail: a
+// negative stop counts from the tail and is NOT clamped to the head (a stop
+// before the head selects nothing).
+func specRangeStop(stop, n int) int {
+	if stop < 0 {
+		stop = n + stop
+	}
+	return stop
+}
+
+// specRangeLen is the number of elements LRANGE start..stop returns from n.
+func specRangeLen(start, stop, n int) int {
+	s := specRangeStart(start, n)
+	e := specRangeStop(stop, n)
+	if e > n-1 {
+		e = n - 1
+	}
+	if s >= n || e < s {
+		return 0
+	}
+	return e - s + 1
+}
+
+// specTrimStart is the index of the first element LTRIM start..stop keeps in a
+// list of n elements, specTrimLen how many it keeps (0: the key goes away).
+func specTrimStart(start, n int) int {
+	if start < 0 {
+		start = n + start
+	}
+	if start < 0 {
+		start = 0
+	}
+	if start > n {
+		start = n
+	}
+	return start
+}
+
+func specTrimLen(start, stop, n int) int {
+	s := specTrimStart(start, n)
+	if stop < 0 {
+		stop = n + stop
+	}
+	if stop > n-1 {
+		stop = n - 1
+	}
+	if stop < s {
+		return 0
+	}
+	return stop - s + 1
+}
